@@ -336,6 +336,79 @@ def long_contig_check(ctx):
         core.run_family(ctx, fam, inputs=judged_inputs)
 
 
+class Concurrent(Fam):
+    """calc_signature / find_kmers called from several Python threads at once, each on its own sequences (mixed case, bytearray and str among
+    them), with a 10 microsecond switch interval; per (thread, input) the record holds a deviating result if any call returned one"""
+    name = 'concurrent-callers'
+    exhaustive = False
+    procs = 0
+    rule = ('6 threads looping over 5 private inputs each (k in {4, 11, 13}, planted prefixes, mixed case; bytes / bytearray / str / Seq) for a few seconds: every '
+            'signature returned under concurrency is judged against the definition')
+
+    def inputs(self, ctx):
+        return []
+
+
+def run_concurrent(ctx):
+    import sys
+    import threading
+    import time
+    rng = ctx.rng.__class__(ctx.seed + 404)
+    nthreads, secs = 6, (3 if ctx.tier == 'quick' else 20)
+    work = []
+    for t in range(nthreads):
+        items = []
+        for j in range(5):
+            k = [4, 11, 13][(t + j) % 3]
+            pre = [b'AT', b'ATGAC', b'CAG'][(t + 2 * j) % 3]
+            seq = planted(rng, rng.randint(30, 400), k, pre, b'ACGTacgtN', 0.05)
+            typ = ALLT[(t + j) % len(ALLT)]
+            arg = TYPES[typ](seq)
+            if arg is None:
+                typ, arg = 'bytes', bytes(seq)
+            items.append((k, pre, seq, typ, arg, KmerSpec(k, pre)))
+        work.append(items)
+    seen = [[{} for _ in items] for items in work]
+    errors = []
+    stop = threading.Event()
+
+    def body(t):
+        try:
+            while not stop.is_set():
+                for j, (k, pre, seq, typ, arg, ks) in enumerate(work[t]):
+                    res = calc_signature(ks, arg)
+                    key = (str(res.dtype), tuple(int(v) for v in res))
+                    seen[t][j][key] = seen[t][j].get(key, 0) + 1
+        except Exception as e:
+            errors.append(f'{type(e).__name__}: {e}'[:100])
+
+    old = sys.getswitchinterval()
+    sys.setswitchinterval(1e-5)
+    try:
+        threads = [threading.Thread(target=body, args=(t,)) for t in range(nthreads)]
+        for th in threads:
+            th.start()
+        time.sleep(secs)
+        stop.set()
+        for th in threads:
+            th.join()
+    finally:
+        sys.setswitchinterval(old)
+    fam = Concurrent()
+    inputs, table = [], {}
+    for t in range(nthreads):
+        for j, (k, pre, seq, typ, arg, ks) in enumerate(work[t]):
+            alone = calc_signature(ks, arg)
+            base = (str(alone.dtype), tuple(int(v) for v in alone))
+            pick = next((x for x in sorted(seen[t][j]) if x != base), base)
+            o = out_record(np.array(pick[1], dtype=pick[0]), k) if not errors else out_record(RuntimeError(errors[0]), k)
+            inp = dict(op='sig', thread=t, item=j, k=k, pre=list(pre), seqs=[list(seq)], typ=typ, distinct=len(seen[t][j]))
+            inputs.append(inp)
+            table[core.canon(inp)] = dict(op='sig', k=k, pre=blist(pre), seqs=[blist(seq)], must_fail=False, outs=[dict(o, variants=[f'{typ}/threads'])])
+    fam.execute = lambda inp: table[core.canon(inp)]
+    core.run_family(ctx, fam, inputs=inputs)
+
+
 FAMILIES = [ExhaustiveN, ExhaustiveMixed, Random]
 
 
@@ -353,6 +426,7 @@ def run(ctx):
     for F in FAMILIES:
         core.run_family(ctx, F())
     long_contig_check(ctx)
+    run_concurrent(ctx)
     ctx.assumptions += ['k-mer indices are shipped to TLC as base-4 digit tuples (projection in harness/enc.py)',
                         'contigs longer than 5000 nt are checked through the piece lemma (whole = union of overlapping pieces judged by TLC), up to 2^20 + 3000 nt']
 
